@@ -71,6 +71,10 @@ func (eng *Engine) writeReplay(root, prop string, v *violation, frs []*FuncResul
 	}
 	rec["model"] = or.Model
 	test, why := eng.genReplayTest(fr, or)
+	if test == "" && eng.runWitness(root, dir, v, rec) {
+		writeJSON(v.replay, rec)
+		return
+	}
 	if test == "" {
 		rec["outcome"] = "no-failing-input-found"
 		rec["detail"] = "model not replayable: " + why
@@ -116,6 +120,34 @@ func (eng *Engine) writeReplay(root, prop string, v *violation, frs []*FuncResul
 		rec["detail"] = "replay did not build or run"
 	}
 	writeJSON(v.replay, rec)
+}
+
+// runWitness: a failing obligation for which a hand-written witness test is registered in
+// known_findings.json (the history that demonstrated the defect) is replayed with that test.
+func (eng *Engine) runWitness(root, dir string, v *violation, rec map[string]interface{}) bool {
+	for _, f := range loadFindings(root) {
+		if f.Obligation != v.obligation || f.WitnessTest == "" {
+			continue
+		}
+		src := filepath.Join(root, f.WitnessTest)
+		ov := map[string]map[string]string{"Replace": {filepath.Join(eng.repo, f.WitnessPkg, "zz_verif_witness_test.go"): src}}
+		ovPath := filepath.Join(dir, "overlay.json")
+		writeJSON(ovPath, ov)
+		cmdline := fmt.Sprintf("cd %s && GOFLAGS=-mod=mod GOPROXY=off go test -overlay %s -vet=off -count=1 -timeout 120s -run TestShvcWitness ./%s/", eng.repo, ovPath, f.WitnessPkg)
+		out, _ := exec.Command("bash", "-c", cmdline).CombinedOutput()
+		rec["replay_cmd"] = cmdline
+		rec["replay_kind"] = "registered witness history: " + f.Witness
+		rec["replay_output_tail"] = lastLines(string(out), 25)
+		if strings.Contains(string(out), "SHVC-WITNESS: REPRODUCED") {
+			rec["outcome"] = "reproduced"
+			v.noInput = false
+			return true
+		}
+		rec["outcome"] = "no-failing-input-found"
+		rec["detail"] = "the registered witness history does not fail on this tree"
+		return true
+	}
+	return false
 }
 
 func writeJSON(path string, v interface{}) {
